@@ -427,3 +427,49 @@ VERIF_OBLIGATION(obl_c02_init_thread)
             verif_assert(mc.s_status[i] == pre.status[i] && mc.s_track[i] == pre.track[i] && mc.p_id[i] == pre.pid[i] && mc.p_energy[i] == pre.energy[i],
                          "no other slot is written (no live track overwritten)");
 }
+
+//---------------------------------------------------------------------------//
+// C06.2/.3: history independence of track initialisation: after InitTracksExecutor every per-slot field of the
+// sim / particle / physics / material / geometry-level state of the initialised slot equals a function of the
+// initializer (and of the located volume) only -- the slot's previous contents (symbolic here) cannot leak into the event
+VERIF_OBLIGATION(obl_c06_init_overwrites)
+{
+    MC mc;
+    arbitrary_state(mc, TrackOrder::none);
+    size_type ninit = arbitrary_queue(mc);
+    verif_assume(ninit >= 1);
+    constexpr int vslot = 1;
+    mc.s_status[vslot] = TrackStatus::inactive;
+    mc.i_vacancies[0] = TrackSlotId(vslot);
+    for (int i = 0; i < MC::V; ++i)
+    {
+        unsigned m = verif_nondet_u32("geo_material");
+        verif_assume(m <= (unsigned)MC::M);
+        mc.geo_mat[i] = m < (unsigned)MC::M ? MaterialId{m} : MaterialId{};
+    }
+    CoreStateCounters& c = mc.counters;
+    c.num_initializers = ninit;
+    c.num_vacancies = 1;
+    c.num_secondaries = 0;  // primary: geometry located from the initializer position (cut stub)
+    TrackInitializer const init = mc.i_initializers[ninit - 1];
+    InitTracksExecutor run{verif::params_ptr(mc), verif::state_ptr(mc), 1, c};
+    run(ThreadId(0));
+    verif_reach("init_overwrites");
+    verif_assert(mc.s_track[vslot] == init.sim.track_id && mc.s_parent[vslot] == init.sim.parent_id && mc.s_event[vslot] == init.sim.event_id
+                     && mc.s_time[vslot] == init.sim.time,
+                 "sim ids and time come from the initializer");
+    verif_assert(mc.s_steps[vslot] == 0 && mc.s_loop[vslot] == 0 && mc.s_step[vslot] == 0 && !mc.s_along[vslot], "step counters, step length and along-step action reset");
+    verif_assert(mc.p_id[vslot] == init.particle.particle_id && mc.p_energy[vslot] == init.particle.energy.value(), "particle state from the initializer");
+    verif_assert(mc.g_pos[vslot][0] == init.geo.pos[0] && mc.g_pos[vslot][1] == init.geo.pos[1] && mc.g_pos[vslot][2] == init.geo.pos[2]
+                     && mc.g_dir[vslot][0] == init.geo.dir[0] && mc.g_dir[vslot][2] == init.geo.dir[2],
+                 "geometry position/direction from the initializer");
+    verif_assert(!mc.g_surface_level[vslot] && !mc.g_next_level[vslot] && mc.g_level[vslot] == LevelId{0}, "geometry surface / next-step cache cleared");
+    if (mc.s_status[vslot] == TrackStatus::initializing)
+    {
+        verif_assert(!mc.s_post[vslot], "post-step action cleared");
+        verif_assert(mc.ph_state[vslot].interaction_mfp == 0, "remaining MFP reset so that it is re-sampled at the first pre-step");
+        verif_assert(mc.m_state[vslot].material_id == mc.geo_mat[mc.g_vol[vslot].unchecked_get()], "material is the located volume's material");
+    }
+    else
+        verif_assert(mc.s_status[vslot] == TrackStatus::errored && mc.s_post[vslot] == ActionId{2}, "failed initialisation: errored with the tracking-cut action");
+}
